@@ -53,6 +53,7 @@ type C09Case struct {
 	TmpMount  bool       `json:"tmp_is_own_filesystem,omitempty"` // /tmp on a tmpfs: renames from there into $HOME fail with EXDEV
 	Sched     []uint16   `json:"sched,omitempty"`                 // schedule vector of every process of the case
 	Link      string     `json:"notebook_is_link,omitempty"`      // "rel" / "abs": the notebook path is a symbolic link to the real file
+	Light     bool       `json:"light,omitempty"`                 // reference-run checks + a thin sample of the faults instead of all of them
 }
 
 func genC09(rt *rapid.T) C09Case {
@@ -79,6 +80,7 @@ func genC09(rt *rapid.T) C09Case {
 	if rapid.Bool().Draw(rt, "hassched") {
 		c.Sched = genSchedule(rt, 40)
 	}
+	c.Light = rapid.IntRange(0, 3).Draw(rt, "light") > 0
 	if !c.NBMissing && rapid.IntRange(0, 2).Draw(rt, "linked") == 0 {
 		c.Link = rapid.SampledFrom([]string{"rel", "abs"}).Draw(rt, "linkkind")
 	}
@@ -357,6 +359,17 @@ func runC09(c C09Case) *Outcome {
 			}
 		}
 	}
+	if c.Light && c.Only == nil && len(specs) > 24 {
+		// a light case: the reference-run checks above and a thin, case-determined sample of the fault space (many
+		// more pre-states per minute; the full enumeration is the business of the other cases)
+		var thin []FaultSpec
+		stride := len(specs)/24 + 1
+		for i := c.KSeeds[0] % stride; i < len(specs); i += stride {
+			thin = append(thin, specs[i])
+		}
+		specs = thin
+		o.Probes["c09.light_cases"] = 1
+	}
 	// 3. one child process per fault, a few at a time
 	verdicts := make([]c09Verdict, len(specs))
 	var wg sync.WaitGroup
@@ -438,7 +451,7 @@ func runC09(c C09Case) *Outcome {
 		o.Probes["c09.outcome."+k] = v
 	}
 	o.Probes["c09.faults_enumerated"] = len(specs)
-	o.NonTrivial = len(specs) > 10
+	o.NonTrivial = len(specs) > 10 || c.Light
 	var ks []string
 	for k, v := range outcomes {
 		ks = append(ks, fmt.Sprintf("%s=%d", k, v))
